@@ -3,7 +3,8 @@ EXTENDS ConfigFile, Json
 RECURSIVE Str(_)
 Str(s) == IF s = <<>> THEN "" ELSE Head(s) \o Str(Tail(s))
 RootLevelsDef == {1, 4}
-AppListsDef == { <<>>, <<"c">>, <<"c", "x">>, <<"ghost", "c">>, <<"ghost", "ghost2", "c", "x">> }
+\* (a name given twice in a row is two attachments, as it is for the builders)
+AppListsDef == { <<>>, <<"c">>, <<"c", "x">>, <<"ghost", "c">>, <<"ghost", "ghost2", "c", "x">>, <<"c", "c">> }
 LoggerOptionsDef == { [lvl |-> 5, add |-> "none", apps |-> <<"c">>], [lvl |-> 2, add |-> "false", apps |-> <<"x", "c">>],
                       [lvl |-> 0, add |-> "true", apps |-> <<"ghost", "ghost2", "c">>], [lvl |-> 3, add |-> "none", apps |-> <<>>] }
 ProbeTargets == { <<"a">>, <<"a", ":", ":", "b">>, <<"a", ":", ":", "b", ":", ":", "c">>, <<"z">>, <<"a", "b">> }
